@@ -57,13 +57,19 @@ def run(chk, binary):
         text = gen_text(rng)
         pat = rng.choice(PATTERNS)
         flag = rng.choice(["-g", "-g", "-v"])
-        variant = rng.choice(["mark", "cut", "else", "tally", "top", "nested"])
+        variant = rng.choice(["mark", "cut", "else", "tally", "top", "nested", "elsecut", "open"])
         pat2 = rng.choice(PATTERNS)
         if variant == "tally":
             # the scope also edits the first line each time: the lines still to be visited move
             argv = [flag, pat, "-m", "I#<esc>", "-m", "ggA|<esc>", "--end"]
         elif variant == "top":
             argv = [flag, pat, "-m", "I#<esc>", "-m", "ggOnew<esc>", "--end"]
+        elif variant == "elsecut":
+            # the scope only edits, its --else branch cuts: when lines are selected the edited text is what is printed
+            argv = [flag, pat, "-m", "I#<esc>", "--else", "-c", "e", "--end"]
+        elif variant == "open":
+            # two key commands in the scope, the first leaves insert mode open: each starts in normal mode all the same
+            argv = [flag, pat, "-m", "I#", "-m", "A$", "--end"]
         elif variant == "nested":
             # a scope of its own in the --else branch: it runs (once) only when the outer set is empty
             argv = [flag, pat, "-m", "I#<esc>", "--else", "-g", pat2, "-m", "I%<esc>", "--end", "--end"]
@@ -76,7 +82,7 @@ def run(chk, binary):
         jobs.append({"args": argv, "stdin": text})
         meta.append((text, pat, flag, variant, argv, pat2))
     res = cli_map(binary, jobs)
-    dist = {"mark": 0, "cut": 0, "else": 0, "tally": 0, "top": 0, "nested": 0, "final_newline": 0, "empty_lines": 0, "multibyte": 0, "else_taken": 0}
+    dist = {"mark": 0, "cut": 0, "else": 0, "tally": 0, "top": 0, "nested": 0, "elsecut": 0, "open": 0, "final_newline": 0, "empty_lines": 0, "multibyte": 0, "else_taken": 0}
     mcases = []
     mmeta = []
     for (text, pat, flag, variant, argv, pat2), (rc, out, err) in zip(meta, res):
@@ -99,13 +105,15 @@ def run(chk, binary):
             chk.violation("spec:run failed", dict(case, stderr=err.decode(errors="replace")[-300:]))
             continue
         sout = out.decode("utf-8", errors="replace")
-        if variant in ("mark", "else", "tally", "top", "nested"):
+        if variant == "elsecut" and not want:
+            continue            # the else branch cut a field: not the subject here
+        if variant in ("mark", "else", "tally", "top", "nested", "elsecut", "open"):
             # every visited line gets '#' before its first non-blank character, no other line changes
             exp_lines = []
             for i, l in enumerate(lines):
                 if i in want:
                     k = len(l) - len(l.lstrip(" \t"))
-                    exp_lines.append(l[:k] + "#" + l[k:])
+                    exp_lines.append(l[:k] + "#" + l[k:] + ("$" if variant == "open" else ""))
                 else:
                     exp_lines.append(l)
             if variant == "nested" and not want:
